@@ -232,6 +232,13 @@ class PassWorld(World):
             return False
         return super().bind(p, v, env, uses)
 
+    def struct_field(self, sv, name):
+        """the current value of field `name` of the plain struct value `sv` (assignments included)"""
+        ov = getattr(self, "_struct_over", {}).get(id(sv))
+        if ov is not None and ov[0] is sv and name in ov[1]:
+            return ov[1][name]
+        return sv[2][self.structs[sv[1]].index(name)]
+
     def k_receiver(self, k_):
         """the value an opaque method result `recv.m(..)` was computed from, or None"""
         ent = getattr(self, "_k_recv", {}).get(id(k_))
@@ -396,9 +403,22 @@ class PassWorld(World):
                     pass
             if p not in env and last(p) in self.free and "::" not in p:
                 return ("F", p)
+            if p in ("Some", "Ok", "Err", "Option::Some", "Result::Ok", "Result::Err") and p not in env:
+                return ("PY", lambda x, p=p: S(last(p), x))  # a constructor used as a function value
+            if p in ("Box::new", "Rc::new", "Arc::new") and p not in env:
+                return ("PY", lambda x: x)
             sg0 = p.split("::")
             if self.lenient_opaque and len(sg0) == 2 and sg0[0][:1].isupper() and sg0[1][:1].islower() and p not in env and (sg0[0], sg0[1]) not in self.methods and sg0[0] not in self.enums and sg0[0] not in self.structs and sg0[0] != "Self":
-                return ("PY", lambda *a, p=p: ("K", p, tuple(a)))  # an associated function of a type defined elsewhere, used as a function value
+                def assoc_(*a, p=p, m_=sg0[1]):
+                    # `Type::method` applied to (receiver, ..) is `receiver.method(..)` when the receiver is an object the rule models
+                    if a and isinstance(a[0], tuple) and len(a[0]) > 2 and a[0][0] == "O":
+                        v_ = dict(a[0][2]).get(m_)
+                        if isinstance(v_, tuple) and v_ and v_[0] == "PY":
+                            return v_[1](*a[1:])
+                        if v_ is not None and len(a) == 1:
+                            return v_
+                    return ("K", p, tuple(a))
+                return ("PY", assoc_)  # an associated function of a type defined elsewhere, used as a function value
             if self.lenient_opaque and len(sg0) == 2 and sg0[0][:1].isupper() and sg0[1][:1].isupper() and p not in env and sg0[0] not in self.enums and sg0[0] not in self.structs and self.variant(p, uses + list(self.file_uses)) is None and p not in self.consts:
                 return ("O", p, ())  # a unit variant / associated constant of a type defined elsewhere
         if k == "Field":
@@ -412,6 +432,10 @@ class PassWorld(World):
                     if k_ == e["member"] and not (isinstance(v_, tuple) and v_ and v_[0] == "PY"):
                         return v_  # a public field of an opaque struct
                 return ("O", "%s.%s" % (b[1], e["member"]))
+            if isinstance(b, tuple) and len(b) > 2 and b[0] == "S" and b[1] in self.structs:
+                ov = getattr(self, "_struct_over", {}).get(id(b))
+                if ov is not None and ov[0] is b and e["member"] in ov[1]:
+                    return ov[1][e["member"]]  # a field of a plain struct that was assigned to (see Assign)
         if k == "Call" and e["func"]["k"] == "Path":
             p = e["func"]["path"]
             segs_ = p.split("::")
@@ -498,6 +522,10 @@ class PassWorld(World):
         if k == "MethodCall":
             m = e["method"]
             recv = self.eval(e["recv"], env, uses)
+            if m == "clone" and not e["args"] and isinstance(recv, tuple) and len(recv) > 2 and recv[0] == "S" and recv[1] in ("Some", "Ok") and len(recv[2]) == 1:
+                in_ = recv[2][0]
+                if isinstance(in_, tuple) and len(in_) > 2 and in_[0] == "O" and isinstance(dict(in_[2]).get("clone"), tuple) and dict(in_[2])["clone"][0] == "PY":
+                    return S(recv[1], dict(in_[2])["clone"][1]())  # an option of a mutable object the rule models: the copy is a copy
             if isinstance(recv, MSet):
                 args = [self.eval(a, env, uses) for a in e["args"]]
                 if m == "insert" and len(args) == 1:
@@ -756,6 +784,15 @@ class PassWorld(World):
                     return (recv == args[0]) == (m == "eq")
                 if m == "len" and not args:
                     return len(recv)
+                if m == "is_empty" and not args:
+                    return recv == ""
+                if m in ("find", "rfind") and len(args) == 1 and isinstance(args[0], str):
+                    i_ = recv.find(args[0]) if m == "find" else recv.rfind(args[0])
+                    return S("Some", len(recv[:i_].encode("utf-8"))) if i_ >= 0 else NONE
+                if m in ("contains", "starts_with", "ends_with") and len(args) == 1 and isinstance(args[0], str):
+                    return {"contains": args[0] in recv, "starts_with": recv.startswith(args[0]), "ends_with": recv.endswith(args[0])}[m]
+                if m in ("to_lowercase", "to_uppercase", "to_ascii_lowercase", "to_ascii_uppercase", "trim") and not args:
+                    return {"to_lowercase": recv.lower(), "to_ascii_lowercase": recv.lower(), "to_uppercase": recv.upper(), "to_ascii_uppercase": recv.upper(), "trim": recv.strip()}[m]
                 raise Unsupported("string method " + m)
             if isinstance(recv, Sink) and m in ("into_iter", "iter_mut"):
                 return Iter(list(recv.items))
@@ -1129,6 +1166,11 @@ class PassWorld(World):
                         if k_ == "set-field" and isinstance(v_, tuple) and v_[0] == "PY":
                             v_[1](l["member"], val)  # an opaque struct that records assignments to its fields
                             return ("T", ())
+                if isinstance(base, tuple) and len(base) > 2 and base[0] == "S" and base[1] in self.structs and l["member"] in self.structs[base[1]]:
+                    if not hasattr(self, "_struct_over"):
+                        self._struct_over = {}
+                    self._struct_over.setdefault(id(base), (base, {}))[1][l["member"]] = val  # plain structs are tuples: the new value is kept beside it
+                    return ("T", ())
                 raise Unsupported("assignment to field %s of %r" % (l["member"], base if not isinstance(base, tuple) else base[:2]))
         if k in ("Binary", "AssignOp") and e.get("op") in ("|=", "&=", "+=", "-=", "^="):
             l = e["l"]
